@@ -16,6 +16,7 @@ extern double Integrate_MC_Miser(std::function<double(std::vector<double>&, cons
 extern double Integrate_MC_Vegas(std::function<double(std::vector<double>&, const double)> func, std::vector<double>& region, const int init, const int ncall, const int itmx, const int nprn);
 extern void Miser(std::function<double(std::vector<double>&, const double)> func, std::vector<double>& region, const int npts, const double dith, double& ave, double& var, std::mt19937& PRNG);
 extern std::vector<double> Random_Point(std::vector<double>& region, std::mt19937& PRNG);
+extern void Rebin(const double rc, const int nd, std::vector<double>& r, std::vector<double>& xin, libphysica::Matrix& xi, const int j);
 }	// namespace libphysica
 
 static const char* METHOD[] = {"Trapezoidal", "Gauss-Legendre", "Gauss-Kronrod", "Tanh-Sinh", "Gauss-Legendre_2", "Adaptive-Simpson", "Monte-Carlo", "Vegas", "Miser", "No-Such-Method"};
@@ -125,6 +126,18 @@ VX double verif_c14_vegas(unsigned dim, const double* region, int init, int ncal
 {
 	std::vector<double> reg(region, region + 2 * dim);
 	return Integrate_MC_Vegas(fv_mc, reg, init, ncall, itmx, -1);
+}
+// Vegas grid refinement: old grid xi_old (n_old boundaries, last = 1) with densities r, rebinned into nd bins of equal weight rc
+VX void verif_c14_rebin(unsigned n_old, int nd, double rc, const double* r, const double* xi_old, double* out)
+{
+	unsigned cols = n_old > (unsigned) nd ? n_old : (unsigned) nd;
+	libphysica::Matrix xi(1, cols, 0.0);
+	for(unsigned k = 0; k < n_old; k++)
+		xi[0][k] = xi_old[k];
+	std::vector<double> rr(r, r + n_old), xin(cols, 0.0);
+	Rebin(rc, nd, rr, xin, xi, 0);
+	for(int k = 0; k < nd; k++)
+		out[k] = xi[0][k];
 }
 VX void verif_c14_random_point(unsigned dim, const double* region, double* out)
 {
